@@ -1,7 +1,7 @@
 (* generated: tie of one numeric kernel to the hand model *)
 From Coq Require Import ZArith List Bool String.
 Import ListNotations.
-From OSQ Require Import Num IR Construct DefaultTable Matrix Check ABA Merge McKay CNOTDec Constants ConstCheck Kernels KernelTactics.
+From OSQ Require Import Num IR Construct DefaultTable Matrix Check ABA Merge McKay CNOTDec Constants Kernels KernelTactics.
 
 (* The control of a ControlledGate is not one of its target's qubits (ir.py, ControlledGate.__init__; Construct.mk_ctrl).
    Without this invariant the source builds CNOT(c, t) last and the model first: both then fail with a ValueError,
